@@ -52,6 +52,14 @@ def runOp (line : String) : String :=
   | ["F", h] => match parseBuf h with
       | some B => showRes Frame.show (decode B)
       | none => "BADOP"
+  | ["R", h, sched] =>
+      -- by `C19.reader_refines_cursor` the result does not depend on the schedule; only its syntax is checked here
+      let okTok (t : String) : Bool := t == "I" || (match t.toNat? with | some k => k > 0 | none => false)
+      if sched == "-" || (sched.splitOn ",").all okTok then
+        match parseBuf h with
+        | some B => showRes Frame.show (decode B)
+        | none => "BADOP"
+      else "BADOP"
   | ["V", h] => match parseBuf h with
       | some B => opVelocity B
       | none => "BADOP"
